@@ -862,6 +862,10 @@ _SIDE_VIOL = []
 #   | "R a,b,c …" rows (bag) | "E" the read raised
 _OUT = [None]
 _SKIPPED = []
+# formats whose TEXT is a parameter of the model, but for which the model says that a document IS produced (`Out` is not
+# `.err`; on the clean tree they raise only where the model raises: longturtle canon=True on a Dataset): the harness
+# compares "produced a document" / "raised" with the model ("S ok" / "E")
+STATUS_FORMATS = ("json-ld", "turtle", "n3", "longturtle", "xml", "pretty-xml")
 
 
 def _tid(t):
@@ -1143,6 +1147,8 @@ def do_read(case, top, target, rd):
             _SIDE_VIOL.append("mutated:ser/patch-target: the target dataset handed to the patch serializer changed")
         if isinstance(out, bytes):
             out = out.decode("utf-8")
+        if fmt in STATUS_FORMATS:
+            _OUT[0] = "S ok"
         if fmt in LINE_FORMATS:
             lines = sorted(l for l in out.splitlines() if l.strip())
             if fmt in ("nt", "nt11"):
@@ -1998,7 +2004,7 @@ def out_comparable(case, rd):
             return rd[2] >= 0 and _is_ground(case, rd[2])
         return False
     if api == "ser":
-        return rd[1] in ("nt", "nt11") or (multi and rd[1] in ("nquads", "hext", "trig"))
+        return rd[1] in ("nt", "nt11") or rd[1] in STATUS_FORMATS or (multi and rd[1] in ("nquads", "hext", "trig"))
     if api == "ctx" and multi:
         return rd[1] in ("graphs", "contexts", "contains4", "quads", "triples4", "triples_ctx",
                          "agg_len", "agg_contains", "agg_triples", "agg_quads")
@@ -2137,6 +2143,8 @@ def _canon_model_out(line, rd=None):
     """the driver's rendering of `Out` -> the canonical form `_out` produces on the implementation side"""
     kind, _, rest = line.partition(" ")
     toks = rest.split()
+    if rd and rd[0] == "ser" and rd[1] in STATUS_FORMATS:                # the text is a parameter: document produced / raised
+        return "E" if kind == "E" else "S ok"
     if kind == "B" and rd and rd[0] == "ser" and rd[1] == "trig":     # blocks -> triples per graph (bnode names pooled)
         counts = {}
         for b in toks:
